@@ -277,4 +277,49 @@ theorem lattice_leaf_reach {g : Geo} {nx ny : Nat} {xs ys : Nat → Rat} (L : La
     obtain ⟨h1, h2⟩ := hgl.2 e he
     exact lattice_reach L (fun k hk => List.mem_range.mpr hk) (List.mem_range.mp h1) h2 hc (leaf_bounds p t l hl)
 
+/-! ## J. the bounding box of a rectangular column -/
+
+theorem le_foldl_min (m : Rat) (xs : List Rat) : ∀ (x : Rat), m ≤ x → (∀ y ∈ xs, m ≤ y) → m ≤ xs.foldl min x := by
+  induction xs with
+  | nil => intro x hx _; exact hx
+  | cons a t ih =>
+    intro x hx h
+    simp only [List.foldl_cons]
+    exact ih (min x a) (le_min hx (h a List.mem_cons_self)) (fun y hy => h y (List.mem_cons_of_mem _ hy))
+
+theorem foldl_max_le (m : Rat) (xs : List Rat) : ∀ (x : Rat), x ≤ m → (∀ y ∈ xs, y ≤ m) → xs.foldl max x ≤ m := by
+  induction xs with
+  | nil => intro x hx _; exact hx
+  | cons a t ih =>
+    intro x hx h
+    simp only [List.foldl_cons]
+    exact ih (max x a) (max_le hx (h a List.mem_cons_self)) (fun y hy => h y (List.mem_cons_of_mem _ hy))
+
+/-- a polygon all of whose nodes lie in the rectangle `R` and that has `R`'s bottom-left and top-right
+    corners among its nodes (an axis-aligned rectangle, nodes in any order) has bounding box `R` -/
+theorem bounds_of_rectangle {poly : Poly} {R : Rect} (hin : ∀ q ∈ poly, inRectangle q R = true)
+    (h1 : R.1 ∈ poly) (h2 : R.2 ∈ poly) : boundsOfPoints poly = R := by
+  have b1 := bounds_contain h1
+  have b2 := bounds_contain h2
+  have hin' : ∀ q ∈ poly, (R.1.1 ≤ q.1 ∧ q.1 ≤ R.2.1) ∧ (R.1.2 ≤ q.2 ∧ q.2 ≤ R.2.2) :=
+    fun q hq => inRectangle_iff.mp (hin q hq)
+  cases poly with
+  | nil => cases h1
+  | cons p ps =>
+    have hp := hin' p List.mem_cons_self
+    have hps : ∀ q ∈ ps, (R.1.1 ≤ q.1 ∧ q.1 ≤ R.2.1) ∧ (R.1.2 ≤ q.2 ∧ q.2 ≤ R.2.2) :=
+      fun q hq => hin' q (List.mem_cons_of_mem _ hq)
+    simp only [boundsOfPoints, minList, maxList] at b1 b2 ⊢
+    have e1 := le_foldl_min R.1.1 (ps.map (·.1)) p.1 hp.1.1 (by
+      intro y hy; obtain ⟨q, hq, rfl⟩ := List.mem_map.mp hy; exact (hps q hq).1.1)
+    have e2 := le_foldl_min R.1.2 (ps.map (·.2)) p.2 hp.2.1 (by
+      intro y hy; obtain ⟨q, hq, rfl⟩ := List.mem_map.mp hy; exact (hps q hq).2.1)
+    have e3 := foldl_max_le R.2.1 (ps.map (·.1)) p.1 hp.1.2 (by
+      intro y hy; obtain ⟨q, hq, rfl⟩ := List.mem_map.mp hy; exact (hps q hq).1.2)
+    have e4 := foldl_max_le R.2.2 (ps.map (·.2)) p.2 hp.2.2 (by
+      intro y hy; obtain ⟨q, hq, rfl⟩ := List.mem_map.mp hy; exact (hps q hq).2.2)
+    obtain ⟨⟨r11, r12⟩, r21, r22⟩ := R
+    simp only at b1 b2 e1 e2 e3 e4 ⊢
+    rw [le_antisymm b1.1 e1, le_antisymm b1.2.1 e2, le_antisymm e3 b2.2.2.1, le_antisymm e4 b2.2.2.2]
+
 end Proofs.Locate
